@@ -262,6 +262,9 @@ class Ctx:
         # exact up-cast followed by a down-cast to the original dtype is the identity
         if a.op == "cast" and a.args[0].dt == dt and _exact_upcast(dt, src):
             return a.args[0]
+        # same-width integer reinterpretation there and back (int8 <-> uint8) is the identity
+        if a.op == "cast" and a.args[0].dt == dt and is_int(dt) and is_int(src) and INTS[dt][0] == INTS[src][0]:
+            return a.args[0]
         return self._mk("cast", dt, (a,), cv)
 
     def cmp(self, op, a, b):
@@ -286,6 +289,28 @@ class Ctx:
         """opaque function of (statics, args): equal iff name, statics and argument terms are equal"""
         self.uf_names.add(name)
         return self._mk("uf", dt, (name, statics) + tuple(args), cv)
+
+    # ---- reinterpretation of storage bytes (deepcopy / storage copies / view(dtype)); cv comes from the real kernel
+    def bitcast(self, a, dt, cv):
+        if a.dt == dt:
+            return a
+        if a.op == "bitcast" and a.args[0].dt == dt:
+            return a.args[0]
+        if is_int(a.dt) and is_int(dt) and INTS[a.dt][0] == INTS[dt][0]:
+            return self.cast(a, dt)
+        return self._mk("bitcast", dt, (a,), self.norm_const(cv, dt))
+
+    def byte_of(self, a, k, dt, cv):
+        return self._mk("byte", dt, (a, k), self.norm_const(cv, dt))
+
+    def from_parts(self, parts, dt, cv):
+        src = parts[0].args[0] if parts[0].op == "byte" else None
+        if src is not None and all(p.op == "byte" and p.args[0] is src and p.args[1] == i for i, p in enumerate(parts)):
+            import torch as _t
+
+            if _t.empty(0, dtype=src.dt).element_size() == len(parts):
+                return src if src.dt == dt else self.bitcast(src, dt, cv)
+        return self._mk("frombytes", dt, tuple(parts), self.norm_const(cv, dt))
 
     def isnan(self, a):
         return self._mk("isnan", BOOL, (a,), a.cv != a.cv)
